@@ -55,10 +55,26 @@ static const uint8_t kDlc[65] = {0, 1, 2, 3, 4, 5, 6, 7, 8, 0, 0, 0, 9, 0, 0, 0,
 static inline bool dlcRepresentable(size_t len) { return len <= 8 || len == 12 || len == 16 || len == 20 || len == 24 || len == 32 || len == 48 || len == 64; }
 
 template <class T>
-static void canLike(W& w, const char* cls, uint8_t pt, uint32_t fullType, int prior, size_t len)
+static void setRemoteBit(T& p, bool v);
+template <>
+void setRemoteBit<A::CanPayload>(A::CanPayload& p, bool v) { p.setRtr(v); }
+template <>
+void setRemoteBit<A::CanFdPayload>(A::CanFdPayload& p, bool v) { p.setRrs(v); }
+template <class T>
+static bool getRemoteBit(const T& p);
+template <>
+bool getRemoteBit<A::CanPayload>(const A::CanPayload& p) { return p.getRtr(); }
+template <>
+bool getRemoteBit<A::CanFdPayload>(const A::CanFdPayload& p) { return p.getRrs(); }
+
+// hv: header variant (bit 0: RTR/RRS bit set before the data, bit 1: ide clear / rsvd set, other flags)
+template <class T>
+static void canLike(W& w, const char* cls, uint8_t pt, uint32_t fullType, int prior, size_t len, int hv = 0)
 {
-    auto hdr = [](T& p) {
-        p.setId(0x12345678 & 0x1FFFFFFF); p.setIde(true); p.setRsvd(false); p.setFlags(0x0C00); p.setCrcSupport(true); p.setErrorPosition(0);
+    const bool remote = hv & 1, alt = hv & 2;
+    auto hdr = [remote, alt](T& p) {
+        p.setId(0x12345678 & 0x1FFFFFFF); p.setIde(!alt); p.setRsvd(alt); p.setFlags(alt ? 0x2800 : 0x0C00); p.setCrcSupport(!alt); p.setErrorPosition(0);
+        setRemoteBit(p, remote);
     };
     T p;
     hdr(p);
@@ -72,11 +88,12 @@ static void canLike(W& w, const char* cls, uint8_t pt, uint32_t fullType, int pr
     w.add(mc::C_TRANS, 2);
     std::string k = cls;
     if (p.getDataLength() != len)
-        w.fail("builder:data-length:" + k, ofmt("setData(%zu bytes): getDataLength() = %u", len, p.getDataLength()));
+        w.fail("builder:data-length:" + k, ofmt("setData(%zu bytes), header variant %d: getDataLength() = %u", len, hv, p.getDataLength()));
     else if (len && (p.getData() == nullptr || memcmp(p.getData(), d.data(), len) != 0))
         w.fail("builder:data-bytes:" + k, ofmt("setData(%zu bytes): getData() returns other bytes", len));
-    if (p.getId() != (0x12345678 & 0x1FFFFFFF) || !p.getIde() || p.getRsvd() || p.getFlags() != 0x0C00 || !p.getCrcSupport() || p.getErrorPosition() != 0)
-        w.fail("builder:header-field-not-preserved:" + k, ofmt("setData(%zu bytes) after prior contents %d changed a header field", len, prior));
+    if (p.getId() != (0x12345678 & 0x1FFFFFFF) || p.getIde() != !alt || p.getRsvd() != alt || p.getFlags() != (alt ? 0x2800 : 0x0C00) || p.getCrcSupport() != !alt ||
+        p.getErrorPosition() != 0 || getRemoteBit(p) != remote)
+        w.fail("builder:header-field-not-preserved:" + k, ofmt("setData(%zu bytes) after prior contents %d (header variant %d) changed a header field", len, prior, hv));
     if (p.getLength() != ref::HDR_CAN + len)
         w.fail("builder:payload-length:" + k, ofmt("setData(%zu bytes): getLength() = %zu, header + data = %zu", len, p.getLength(), ref::HDR_CAN + len));
     Bytes raw(p.getRawPayload(), p.getRawPayload() + p.getLength());
@@ -101,7 +118,7 @@ static void canLike(W& w, const char* cls, uint8_t pt, uint32_t fullType, int pr
     if (fr != raw)
         w.fail("builder:raw-bytes-depend-on-history:" + k, ofmt("prior contents %d then setData(%zu bytes): raw %s..., fresh object: %s...", prior, len, mc::hex(raw.data(), std::min<size_t>(raw.size(), 40)).c_str(),
                                                               mc::hex(fr.data(), std::min<size_t>(fr.size(), 40)).c_str()));
-    w.outcome(mc::mix(mc::fnv_s(k), mc::mix(len, prior)));
+    w.outcome(mc::mix(mc::fnv_s(k), mc::mix(len, prior * 4 + hv)));
 }
 
 static inline void lin(W& w, int prior, size_t len)
@@ -365,8 +382,9 @@ static inline void runCase(W& w, const std::string& cs)
     std::string cls = kv["cls"];
     int prior = atoi(kv["prior"].c_str());
     size_t len = strtoull(kv["len"].c_str(), nullptr, 10);
-    if (cls == "can") canLike<A::CanPayload>(w, "CanPayload", ref::PT_CAN, A::PayloadType::can, prior, len);
-    else if (cls == "canfd") canLike<A::CanFdPayload>(w, "CanFdPayload", ref::PT_CANFD, A::PayloadType::canFd, prior, len);
+    int hv = atoi(kv["hv"].c_str());
+    if (cls == "can") canLike<A::CanPayload>(w, "CanPayload", ref::PT_CAN, A::PayloadType::can, prior, len, hv);
+    else if (cls == "canfd") canLike<A::CanFdPayload>(w, "CanFdPayload", ref::PT_CANFD, A::PayloadType::canFd, prior, len, hv);
     else if (cls == "lin") lin(w, prior, len);
     else if (cls == "eth") eth(w, prior, len);
     else if (cls == "analog") analog(w, prior, len, atoi(kv["dt"].c_str()));
@@ -388,7 +406,7 @@ static int runC13(mc::Run& run, const mc::Options& opt)
 {
     const bool thorough = opt.tier == "thorough";
     run.rule = "per payload class: a first setData establishing prior contents {none, shorter, longer, same length other bytes} followed by the setData under test; CAN / "
-               "CAN-FD / LIN every length 0..255; Ethernet / analog boundary lengths up to 65529 (thorough: every length 0..1600); capture-module 5^4 string-length "
+               "CAN-FD (x 4 header variants incl. the RTR/RRS bit set before the data) / LIN every length 0..255; Ethernet / analog boundary lengths up to 65529 (thorough: every length 0..1600); capture-module 5^4 string-length "
                "combinations x 4 vendor lengths; interface 9 stream-id counts x 6 vendor lengths; oracle: getters, preserved header fields, independent wire image, DLC "
                "table, own validity check, real Decoder, raw bytes == fresh object; distinct = distinct (class, raw size, prior) outcomes";
     run.replay_case = [](W& w, const std::string& cs) { c13::runCase(w, cs); };
@@ -403,8 +421,12 @@ static int runC13(mc::Run& run, const mc::Options& opt)
     for (int prior = 0; prior < 4; ++prior)
     {
         for (size_t len = 0; len <= 255; ++len)
-            for (const char* c : {"can", "canfd", "lin"})
-                cases.push_back(ofmt("cls=%s;prior=%d;len=%zu", c, prior, len));
+        {
+            cases.push_back(ofmt("cls=lin;prior=%d;len=%zu", prior, len));
+            for (const char* c : {"can", "canfd"})
+                for (int hv = 0; hv < 4; ++hv)
+                    cases.push_back(ofmt("cls=%s;prior=%d;len=%zu;hv=%d", c, prior, len, hv));
+        }
         std::vector<size_t> big = {0, 1, 2, 3, 7, 8, 255, 256, 1499, 1500, 65528, 65529};
         if (thorough)
             for (size_t l = 0; l <= 1600; ++l)
